@@ -128,7 +128,14 @@ def direct_greens_function(
     try:
         from mumps import Context as MUMPSContext
     except ImportError:
-        solve = factorized(sparse.csc_matrix(mat))
+        try:
+            solve = factorized(sparse.csc_matrix(mat))
+        except RuntimeError as error:  # SuperLU: "Factor is exactly singular"
+            raise ValueError(
+                "E - H is singular outside of the kernel vectors: the explicit"
+                " subspaces must not share eigenvalues with the rest of the"
+                " spectrum."
+            ) from error
     else:
         ctx = MUMPSContext()
         # MUMPS does not support Hermitian matrices, so we use the symmetric only with real.
